@@ -400,3 +400,78 @@ func W7AdjacentInDocs(sink Sink) {
 		}
 	})
 }
+
+// W7LongPositions: the position sweep for LONG strings: lengths around 100, 128, 256, 512, 1024,
+// 4096 and 8192 with one special element at the start, the end, around the middle and around every
+// multiple of 64 near the end (a fast path that only engages beyond a length threshold has its own
+// validation to forget; seeded change C03r6-m1: strings of 128+ bytes skip the control-byte check).
+func W7LongPositions(sink Sink) {
+	c := &h.Case{Family: "W7lp"}
+	specials := []string{`\n`, "\x1f", "\x00", "\x0a", `"`, "\xff", `\u00e9`, `\ud800`, `\`, `\x`, "\x7f"}
+	c.DescFn = func(c *h.Case) string {
+		return fmt.Sprintf("plain string of length %d with %q at offset %d, tail #%d", c.P[0], specials[c.P[1]], c.P[2], c.P[3])
+	}
+	fill := "abcdefghijklmnopqrstuvwxyz0123456789ABCDEFGHIJKLMNOPQRSTUVWXYZ-_.,;:!?()[]{}"
+	tails := []string{"", `,"next"]`}
+	var lens []int
+	for _, B := range []int{100, 128, 256, 512, 1024, 4096, 8192} {
+		lens = append(lens, B-2, B-1, B, B+1, B+2)
+	}
+	buf := make([]byte, 0, 8400)
+	for _, L := range lens {
+		posSet := map[int]bool{0: true, 1: true, L / 2: true, L - 2: true, L - 1: true, L: true}
+		for m := 64; m <= L; m *= 2 {
+			posSet[m-1], posSet[m], posSet[m+1] = true, true, true
+		}
+		for pos := range posSet {
+			if pos < 0 || pos > L {
+				continue
+			}
+			for si, sp := range specials {
+				for ti, tail := range tails {
+					buf = append(buf[:0], '"')
+					for i := 0; i < pos; i++ {
+						buf = append(buf, fill[i%len(fill)])
+					}
+					buf = append(buf, sp...)
+					for i := pos; i < L; i++ {
+						buf = append(buf, fill[i%len(fill)])
+					}
+					buf = append(buf, '"')
+					buf = append(buf, tail...)
+					c.Input = buf
+					c.Desc = ""
+					c.P = [4]int{L, si, pos, ti}
+					sink(c)
+				}
+			}
+		}
+	}
+}
+
+// W7LongPositionsInDocs: the same strings as array elements, member values and keys.
+func W7LongPositionsInDocs(sink Sink) {
+	wrap := [][2]string{{"[", `,"next"]`}, {`{"k":`, `,"z":1}`}, {"{", `:1}`}, {`[0,`, "]"}}
+	c := &h.Case{Family: "W7ld"}
+	c.DescFn = func(c *h.Case) string {
+		return fmt.Sprintf("long position-sweep string (length %d, special #%d at %d) wrapped as %q..%q", c.P[0], c.P[1], c.P[2], wrap[c.P[3]][0], wrap[c.P[3]][1])
+	}
+	buf := make([]byte, 0, 8500)
+	W7LongPositions(func(cs *h.Case) {
+		if cs.P[3] != 0 {
+			return
+		}
+		for wi, w := range wrap {
+			if cs.P[0] > 1100 && wi >= 2 {
+				continue
+			}
+			buf = append(buf[:0], w[0]...)
+			buf = append(buf, cs.Input...)
+			buf = append(buf, w[1]...)
+			c.Input = buf
+			c.Desc = ""
+			c.P = [4]int{cs.P[0], cs.P[1], cs.P[2], wi}
+			sink(c)
+		}
+	})
+}
